@@ -7,10 +7,14 @@ one canonical form of constructs that maintainers routinely rewrite into each ot
   E5  for unsigned X (own type unsigned, or unsigned char / short promoted): 0 < X, 1 <= X -> 0 != X ; 0 >= X, 1 > X -> 0 == X
   E6  0 != (a & b) -> (a & b) used as a bool ; 0 == (a & b) -> !(a & b)          (bit tests are written implicitly in this code base)
   E7  c ? true : false -> c ; c ? false : true -> !c
+  E8  (*p).f -> p->f (printed p.f), for pointers and for overloaded operator* / operator-> alike
+  E9  x << 0, x >> 0, x + 0, x - 0, x | 0, x ^ 0, x * 1 -> x   (integers, when the type of the result is the type of x)
   E4  x += 1, x = x + 1, x++ (value unused) -> ++x ; likewise --x
   S1  if (!c) A else B -> if (c) B else A
   S2  if (c) { ...always exits } else B  ->  if (c) { ... } ; B            (else after return / throw)
   S3  if (a) { if (b) X }  ->  if (a && b) X                                (no else on either)
+  S6  for (T i = 0; i < X.size(); ++i) { .. X[i] .. } with i used only as the index of the plain member / variable X -> range-for over X
+  S7  T i = a; while (c(i)) { body; ++i; } (no continue, i dead afterwards) -> for (T i = a; c(i); ++i) body
   S5  `while (c) body` and `for (; c; ) body` are both exported as For nodes with empty init / increment
 
 Nothing here changes which values are computed, in which order side effects happen, or which exceptions are thrown."""
@@ -121,6 +125,13 @@ def norm_expr(e):
         if isinstance(v, (dict, list)):
             e[k] = norm_expr(v)
     k = e.get("k")
+    if k == "Member" and isinstance(e.get("b"), dict):
+        # E8: (*p).f == p->f (built-in and iterator / smart-pointer dereference alike): the base becomes p
+        b = _strip(e["b"])
+        if isinstance(b, dict) and b.get("k") == "Un" and b.get("op") == "*" and not b.get("post"):
+            e["b"] = b["e"]
+        elif isinstance(b, dict) and b.get("k") == "OpCall" and b.get("op") in ("*", "->") and len(b.get("args", [])) == 1:
+            e["b"] = b["args"][0]
     if k == "Un" and e.get("op") == "!":
         inner = _strip(e.get("e"))
         if isinstance(inner, dict) and inner.get("k") == "Un" and inner.get("op") == "!":
@@ -129,6 +140,18 @@ def norm_expr(e):
             n = dict(inner)
             n["op"] = NEG_EQ[inner["op"]]
             return n
+    if k == "Bin" and e.get("op") in ("<<", ">>", "+", "-", "|", "^", "*") and not _is_float(e):
+        # E9: x << 0, x >> 0, x + 0, 0 + x, x - 0, x | 0, 0 | x, x ^ 0, x * 1, 1 * x -> x  (integers)
+        lv, rv = _lit(e["l"]), _lit(e["r"])
+        op = e["op"]
+        if rv == 0 and op in ("<<", ">>", "+", "-", "|", "^") and (e.get("t") == (e["l"].get("t") if isinstance(e["l"], dict) else None)):
+            return e["l"]
+        if lv == 0 and op in ("+", "|", "^") and (e.get("t") == (e["r"].get("t") if isinstance(e["r"], dict) else None)):
+            return e["r"]
+        if rv == 1 and op == "*" and (e.get("t") == (e["l"].get("t") if isinstance(e["l"], dict) else None)):
+            return e["l"]
+        if lv == 1 and op == "*" and (e.get("t") == (e["r"].get("t") if isinstance(e["r"], dict) else None)):
+            return e["r"]
     if k == "Bin" and e.get("op") in FLIP:
         e = _zero_cmp(e)
         if e.get("k") != "Bin" or e.get("op") not in FLIP:
@@ -212,6 +235,141 @@ def _neg(c):
     return {"k": "Un", "op": "!", "e": c, "loc": (c or {}).get("loc"), "t": "bool", "sz": 1}
 
 
+def _walk(n, f):
+    if isinstance(n, dict):
+        f(n)
+        for v in n.values():
+            _walk(v, f)
+    elif isinstance(n, list):
+        for v in n:
+            _walk(v, f)
+
+
+def _refs_to(n, d):
+    out = []
+    _walk(n, lambda x: out.append(x) if x.get("k") == "Ref" and x.get("d") == d else None)
+    return out
+
+
+def _is_step(e, d):
+    """++i (after E4) on local d"""
+    e = _strip(e)
+    return isinstance(e, dict) and e.get("k") == "Un" and e.get("op") == "++" and isinstance(_strip(e.get("e")), dict) and _strip(e["e"]).get("k") == "Ref" and _strip(e["e"]).get("d") == d
+
+
+def _while_to_for(stmts):
+    """S7: `T i = a; while (c(i)) { body; ++i; }` with i not used afterwards and no `continue` in body  ->  for (T i = a; c(i); ++i) body"""
+    out = []
+    i = 0
+    while i < len(stmts):
+        s = stmts[i]
+        nxt = stmts[i + 1] if i + 1 < len(stmts) else None
+        done = False
+        if isinstance(s, dict) and s.get("k") == "Decl" and len(s.get("vars", [])) == 1 and "d" in s["vars"][0] and s["vars"][0].get("init") is not None \
+                and isinstance(nxt, dict) and nxt.get("k") == "For" and nxt.get("init") is None and nxt.get("inc") is None and nxt.get("c") is not None:
+            d = s["vars"][0]["d"]
+            body = _stmts(nxt.get("b"))
+            conts = []
+            _walk(nxt.get("b"), lambda x: conts.append(x) if x.get("k") == "Continue" else None)
+            later = []
+            for r in stmts[i + 2:]:
+                later += _refs_to(r, d)
+            if body and not conts and not later and _refs_to(nxt["c"], d) and body[-1].get("k") == "Expr" and _is_step(body[-1].get("e"), d) \
+                    and not any(_is_step(x, d) for b in body[:-1] for x in [b.get("e")] if b.get("k") == "Expr"):
+                f = dict(nxt)
+                f["init"] = s
+                f["inc"] = body[-1]["e"]
+                f["b"] = {"k": "Block", "s": body[:-1], "loc": (nxt.get("b") or {}).get("loc")}
+                f.pop("was", None)
+                out.append(f)
+                i += 2
+                done = True
+        if not done:
+            out.append(s)
+            i += 1
+    return out
+
+
+def _pure_container(x):
+    x = _strip(x)
+    if not isinstance(x, dict):
+        return False
+    if x.get("k") in ("Ref", "This"):
+        return True
+    if x.get("k") == "Member":
+        return _pure_container(x.get("b"))
+    if x.get("k") == "Un" and x.get("op") == "*":
+        return _pure_container(x.get("e"))
+    return False
+
+
+def _index_loop_to_range(f):
+    """S6: for (T i = 0; i < X.size(); ++i) { ... X[i] ... } where i occurs in the body only as the index of X and X is a plain
+    member / variable  ->  range-for over X whose element stands for X[i]"""
+    init, c, inc = f.get("init"), _strip(f.get("c")), f.get("inc")
+    if not (isinstance(init, dict) and init.get("k") == "Decl" and len(init.get("vars", [])) == 1 and isinstance(c, dict) and inc is not None):
+        return f
+    var = init["vars"][0]
+    d = var.get("d")
+    if d is None or _lit(var.get("init")) != 0 or not _is_step(inc, d):
+        return f
+    if c.get("k") != "Bin" or c.get("op") not in ("<", ">", "!="):
+        return f
+    l, r = _strip(c["l"]), _strip(c["r"])
+    if c["op"] == ">":
+        l, r = r, l
+    if c["op"] == "!=" and not (isinstance(l, dict) and l.get("k") == "Ref"):
+        l, r = r, l
+    if not (isinstance(l, dict) and l.get("k") == "Ref" and l.get("d") == d):
+        return f
+    if not (isinstance(r, dict) and r.get("k") == "Call" and r.get("cname") == "size" and not r.get("args") and r.get("obj") is not None and _pure_container(r["obj"])):
+        return f
+    X = r["obj"]
+    xt = _txt(X)
+    uses = _refs_to(f.get("b"), d)
+    hits = []
+
+    def find(n):
+        if n.get("k") == "Index" and isinstance(_strip(n.get("i")), dict) and _strip(n["i"]).get("k") == "Ref" and _strip(n["i"]).get("d") == d and _txt(n.get("b")) == xt:
+            hits.append(n)
+        if n.get("k") == "OpCall" and n.get("op") == "[]" and len(n.get("args", [])) == 2 and isinstance(_strip(n["args"][1]), dict) \
+                and _strip(n["args"][1]).get("k") == "Ref" and _strip(n["args"][1]).get("d") == d and _txt(n["args"][0]) == xt:
+            hits.append(n)
+    _walk(f.get("b"), find)
+    if not uses or len(hits) != len(uses):
+        return f
+    for h in hits:
+        t = h.get("t")
+        loc = h.get("loc")
+        sz = h.get("sz")
+        h.clear()
+        h.update({"k": "Ref", "d": d, "dk": "local", "n": var.get("n"), "t": t, "loc": loc, "sz": sz, "synth": True})
+    return {"k": "RangeFor", "loc": f.get("loc"), "range": X, "b": f.get("b"), "was": "IndexFor",
+            "var": {"d": d, "n": var.get("n"), "t": None, "loc": var.get("loc"), "ref": True, "const": False, "synth": True}}
+
+
+def _while_to_for_pre(stmts):
+    """S7 runs before the children are normalised: bring `while` into the For shape first, and the step statement into ++i"""
+    tmp = []
+    for c in stmts:
+        if isinstance(c, dict) and c.get("k") == "While":
+            c = dict(c)
+            c["k"] = "For"
+            c["was"] = "While"
+            c.setdefault("init", None)
+            c.setdefault("inc", None)
+        if isinstance(c, dict) and c.get("k") == "For" and c.get("init") is None and c.get("inc") is None:
+            b = c.get("b")
+            body = _stmts(b)
+            if body and isinstance(body[-1], dict) and body[-1].get("k") == "Expr":
+                last = dict(body[-1])
+                last["e"] = _incdec(last.get("e"))
+                c = dict(c)
+                c["b"] = {"k": "Block", "s": body[:-1] + [last], "loc": (b or {}).get("loc")}
+        tmp.append(c)
+    return _while_to_for(tmp)
+
+
 def norm_stmt(s):
     """returns a LIST of statements replacing s"""
     if not isinstance(s, dict):
@@ -219,7 +377,7 @@ def norm_stmt(s):
     k = s.get("k")
     if k == "Block":
         out = []
-        for c in s.get("s", []):
+        for c in _while_to_for_pre(s.get("s", [])):
             out += norm_stmt(c)
         s["s"] = out
         return [s]
@@ -264,6 +422,8 @@ def norm_stmt(s):
             s["was"] = "While"
             s.setdefault("init", None)
             s.setdefault("inc", None)
+        if s.get("k") == "For":
+            s = _index_loop_to_range(s)
         return [s]
     if k == "If":
         s["c"] = norm_expr(s.get("c"))
